@@ -215,7 +215,7 @@ func rewriteFile(path, pkgLabel string, points bool, syncOnly bool) ([]byte, sta
 			}
 			if syncName != "" && id.Name == syncName {
 				switch n.Sel.Name {
-				case "Mutex", "RWMutex", "Once", "WaitGroup", "Pool":
+				case "Mutex", "RWMutex", "Once", "WaitGroup", "Pool", "Map", "OnceFunc", "OnceValue", "OnceValues":
 					c.Replace(sel(n.Sel.Name))
 					st.Sync++
 				default:
